@@ -23,6 +23,7 @@ class FnLower:
         self.fn = None
         self.renames = {}
         self.loops_closed = 0
+        self.caps = {}
 
     # ------------------------------------------------------------ utilities
     def emit(self, s):
@@ -107,6 +108,7 @@ class FnLower:
         self.scopes = [Scope('fn')]
         if self.rett != 'void': self.emit('%s _vp_retdummy;' % self.rett)
         rec = L.rec_of_method(fn)
+        if rec is not None and rec['id'] in L.lambda_caps: self.caps = L.lambda_caps[rec['id']]
         if kind == 'CXXConstructorDecl':
             tags_done = False
             for c in fn.get('inner', []):
@@ -423,7 +425,7 @@ class FnLower:
             self.throw(e0); return
         if k in CALLS:
             txt, isptr = self.call(e0, want_value=False)
-            if txt: self.emit('%s;' % txt)
+            if txt and not SIMPLE_RE.match(txt): self.emit('%s;' % txt)
             return
         if k == 'BinaryOperator' and e0.get('opcode') == ',':
             self.expr_stmt(e0['inner'][0]); self.expr_stmt(e0['inner'][1]); return
@@ -839,6 +841,26 @@ class FnLower:
             if name == 'addressof': return self.addr(a), False
             if self.is_glvalue(a): return self.addr(a), True
             return self.addr(a), True
+        if name == 'for_each' and len(args) == 3:
+            t0 = L.deref_t(args[0]['type']); t2 = L.deref_t(args[2]['type'])
+            if t0[0] == 'ptr' and t2[0] == 'rec':
+                op = [m for m in self.idx.methods(t2[1]) if m.get('name') == 'operator()' and self.idx.defn.get(m['id']) is not None]
+                if len(op) != 1: self.unsupported('std::for_each functor without a unique operator()')
+                a, b = self.operands([('rv', args[0]), ('rv', args[1])])
+                cl = self.rv(args[2])
+                if not SIMPLE_RE.match(cl): x = self.tmp(); self.emit('%s %s = %s;' % (L.ctype_of(t2), x, cl)); cl = x
+                it = self.tmp('_it'); ct = L.ctype_of(t0)
+                self.emit('%s %s = %s; %s %s_end = %s;' % (ct, it, a, ct, it, b))
+                fn = L.need_fn(op[0]['id'])
+                prm = [p for p in op[0].get('inner', []) if p.get('kind') == 'ParmVarDecl'][0]
+                argx = it if L.is_ref(prm['type']) else '(%s)(*%s)' % (L.ctype(prm['type']), it)
+                self.emit('while (%s != %s_end) { /* std::for_each */' % (it, it))
+                self.emit('  %s(&%s, %s);' % (fn, cl, argx))
+                if L.fn_may_throw(op[0]):
+                    self.ind += 1; self.check(); self.ind -= 1
+                self.emit('  ++%s;' % it); self.emit('}')
+                self.loops_closed += 1
+                return cl, False
         if name in ('abort', 'terminate'):
             self.emit('vp_abort();'); return '', False
         if name == 'get' and len(args) == 1:
@@ -896,6 +918,11 @@ class FnLower:
         items = []
         for i, a in enumerate(args):
             if a.get('kind') == 'CXXDefaultArgExpr': continue
+            a0 = self.strip_casts(a)
+            if a0.get('kind') == 'DeclRefExpr' and a0['referencedDecl'].get('kind') == 'FunctionDecl' and a0['referencedDecl']['id'] not in self.idx.by_id:
+                # a standard-library function passed by reference (stream manipulator std::hex, std::right, ...): an id
+                items.append(('lit', 'VP_MANIP_' + sanitize(a0['referencedDecl'].get('name')))); ptys.append('manip')
+                continue
             byref = (i < len(pts) and L.is_ref(pts[i]))
             at = L.deref_t(a['type'])
             structish = L.ctype_of(at).startswith('struct ') and at[0] != 'ptr'
@@ -903,7 +930,11 @@ class FnLower:
                 items.append(('addr', a)); ptys.append(L.ctype_of(at) + ' *')
             else:
                 items.append(('rv', a)); ptys.append(L.ctype_of(at))
-        cargs = self.operands(items)
+        lits = {k: v for k, (m, v) in enumerate(items) if m == 'lit'}
+        cargs = self.operands([it for it in items if it[0] != 'lit'])
+        for k in sorted(lits): cargs.insert(k, lits[k])
+        ptys = ['int' if p == 'manip' else p for p in ptys]
+        if lits: name = name + '_manip'
         nm = 'vpx_' + sanitize(name.replace('operator<<', 'op_shl').replace('operator>>', 'op_shr').replace('operator==', 'op_eq').replace('operator!=', 'op_ne').replace('operator+', 'op_plus').replace('operator|', 'op_or').replace('operator&', 'op_and').replace('operator~', 'op_not').replace('operator()', 'op_call').replace('operator', 'op_'))
         if ptys: nm += '__' + '_'.join(tsan(p) for p in ptys)
         # constant text streamed into an ostream (string / character literals) is told apart from data: the
@@ -973,6 +1004,9 @@ class FnLower:
             return '&' + self.materialize(e)
         if k == 'DeclRefExpr':
             rd = e['referencedDecl']
+            if rd['id'] in self.caps:
+                fld, byref = self.caps[rd['id']]
+                return 'self->%s' % fld if byref else '&self->%s' % fld
             if rd['id'] in self.refs: return self.vname(rd)
             if rd.get('kind') == 'FunctionDecl': return self.L.need_fn(rd['id'])
             return '&' + self.vname(rd)
@@ -1013,6 +1047,9 @@ class FnLower:
         if k == 'DeclRefExpr':
             rd = e['referencedDecl']
             if rd.get('kind') in ('VarDecl', 'ParmVarDecl', 'BindingDecl'):
+                if rd['id'] in self.caps:
+                    fld, byref = self.caps[rd['id']]
+                    return '(*self->%s)' % fld if byref else 'self->%s' % fld
                 if rd['id'] in self.refs: return '(*%s)' % self.vname(rd)
                 if rd['id'] not in self.idx.by_id and rd.get('kind') == 'VarDecl':
                     g = 'vpg_' + sanitize(rd.get('name'))          # variable of the standard library: model constant/global
@@ -1221,6 +1258,23 @@ class FnLower:
             t = self.tmp(); self.emit('struct vp_initlist %s = {0};' % t)
             return t
         if k == 'CXXDefaultArgExpr': self.unsupported('default argument expression')
-        if k == 'LambdaExpr': self.unsupported('lambda expression')
+        if k == 'LambdaExpr':
+            rec = e['inner'][0]
+            rec = self.idx.by_id.get(rec['id'], rec)
+            inits = [c for c in e['inner'][1:] if c.get('kind') != 'CompoundStmt']
+            flds = self.idx.fields(rec)
+            if len(flds) != len(inits): self.unsupported('lambda captures (%d fields, %d initialisers)' % (len(flds), len(inits)))
+            cname = L.need_rec(rec)
+            t = self.tmp('_lam'); self.emit('struct %s %s;' % (cname, t))
+            caps = {}
+            for fk, (f, ini) in enumerate(zip(flds, inits)):
+                fn_ = f.get('name') or ('_c%d' % fk)
+                byref = L.is_ref(f['type'])
+                i0 = self.strip_casts(ini)
+                if i0.get('kind') != 'DeclRefExpr': self.unsupported('lambda init-capture')
+                caps[i0['referencedDecl']['id']] = (fn_, byref)
+                self.emit('%s.%s = %s;' % (t, fn_, self.addr(i0) if byref else self.rv(ini)))
+            L.lambda_caps[rec['id']] = caps
+            return t
         if k == 'CXXTypeidExpr': self.unsupported('typeid')
         self.unsupported('expr kind %s' % k)
